@@ -188,7 +188,8 @@ theorem restart_accepted (s : St) (i e : Nat) : (restart s i e).1.accepted = s.a
 
 theorem restart_thr {s : St} {i : Nat} {t : Thr} (h : s.thr[i]? = some t) (e : Nat) :
     (restart s i e).1.thr =
-      if t.pc = .ok ∨ t.pc = .full then s.thr.set i { pc := .a1, entry := e } else s.thr := by
+      if t.pc = .ok ∨ t.pc = .full then
+        s.thr.set i { pc := startPc (isCancel s.nc e), entry := e } else s.thr := by
   unfold restart
   rw [h]
   simp only
@@ -643,7 +644,7 @@ theorem C04_accepted_published (s : St) (m : Mv) (i : Nat) (t' : Thr) :
       split at h1
       · rw [get_set_thr htj] at h1
         split at h1
-        · cases h1; cases h2
+        · cases h1; exact absurd h2 (startPc_ne_ok _)
         · exact h1
       · exact h1
   | thr j =>
@@ -723,6 +724,8 @@ def wrote : Pc → Bool
   | .w2 _ | .a6 _ | .ok => true
   | _ => false
 
+theorem wrote_startPc (c : Bool) : wrote (startPc c) = false := by cases c <;> rfl
+
 def WInv (s : St) (w : List Bool) : Prop :=
   ∀ (i : Nat) (t : Thr), s.thr[i]? = some t → w[i]? = some (wrote t.pc)
 
@@ -755,7 +758,8 @@ theorem winv_step {s : St} {w : List Bool} (h : WInv s w) (m : Mv) :
         by_cases hfin : tj.pc = .ok ∨ tj.pc = .full
         · rw [if_pos hfin, get_set_thr htj, if_pos rfl] at hk
           cases hk
-          rcases hfin with hpc | hpc <;> rw [hpc] <;> exact set_bool_get hwj _
+          rcases hfin with hpc | hpc <;> rw [hpc] <;> simp only [wrote_startPc] <;>
+            exact set_bool_get hwj _
         · rw [if_neg hfin, htj] at hk
           cases hk
           cases hpc : tk.pc <;> rw [hpc] at hwj hfin <;> simp only <;>
@@ -804,7 +808,7 @@ theorem winv_init (len h0 n : Nat) : WInv (init len h0 n) (List.replicate n fals
       rcases Nat.lt_or_ge i n with h2 | h2
       · exact h2
       · rw [List.getElem?_eq_none (by simpa using h2)] at hr; cases hr
-    simp [wrote, hi]
+    simp [wrote_startPc, hi]
 
 theorem winv_run {s : St} {w : List Bool} (h : WInv s w) (mvs : List Mv) :
     WInv (runW s w mvs).1 (runW s w mvs).2 := by
@@ -962,7 +966,8 @@ theorem idinv_restart {U : List Nat} {s : St} (h : IdInv U s) (j e : Nat) (he : 
     by_cases hfin : tj.pc = .ok ∨ tj.pc = .full
     · rw [if_pos hfin] at hthr
       have hget : ∀ k tk, (restart s j e).1.thr[k]? = some tk →
-          (k = j ∧ tk = { pc := .a1, entry := e }) ∨ (k ≠ j ∧ s.thr[k]? = some tk) := by
+          (k = j ∧ tk = { pc := startPc (isCancel s.nc e), entry := e }) ∨
+            (k ≠ j ∧ s.thr[k]? = some tk) := by
         intro k tk hk
         rw [hthr, get_set_thr htj] at hk
         by_cases hkj : k = j
@@ -983,7 +988,7 @@ theorem idinv_restart {U : List Nat} {s : St} (h : IdInv U s) (j e : Nat) (he : 
       · intro k tk hk hpc
         rw [hacc]
         rcases hget k tk hk with ⟨_, e'⟩ | ⟨_, hk'⟩
-        · rw [e'] at hpc; cases hpc
+        · rw [e'] at hpc; exact absurd hpc (startPc_ne_ok _)
         · exact h.okin k tk hk' hpc
       · intro a b ta tb ha hb hab hpc
         rcases hget a ta ha with ⟨ea, e'⟩ | ⟨hna, ha'⟩
@@ -1018,7 +1023,7 @@ theorem idinv_run {U : List Nat} {s : St} (h : IdInv U s) (mvs : List Mv)
 
 theorem idinv_init (len h0 n : Nat) : IdInv (List.range n) (init len h0 n) := by
   have hget : ∀ (i : Nat) (t : Thr), (init len h0 n).thr[i]? = some t →
-      i < n ∧ t = { entry := i } := by
+      i < n ∧ t = { pc := startPc (i % 3 == 2), entry := i } := by
     intro i t h1
     simp only [init, List.getElem?_map] at h1
     cases hr : (List.range n)[i]? with
@@ -1038,7 +1043,7 @@ theorem idinv_init (len h0 n : Nat) : IdInv (List.range n) (init len h0 n) := by
     rw [b]; simpa using a
   · intro i t hi hpc
     rcases hget i t hi with ⟨a, b⟩
-    rw [b] at hpc; cases hpc
+    rw [b] at hpc; exact absurd hpc (startPc_ne_ok _)
   · intro i j ti tj hi hj hij _
     rcases hget i ti hi with ⟨_, b⟩
     rcases hget j tj hj with ⟨_, d⟩
